@@ -1360,7 +1360,11 @@ def m_iter_rev(e,run,a,f):
     it=to_iter(e,run,a[0]); xs=drain(e,run,it); xs.reverse(); return Iter(xs)
 def m_iter_take(e,run,a,f):
     it=to_iter(e,run,a[0]); n=deref(a[1])
-    if not n.conc(): raise Unsupported('take symbolic')
+    if not n.conc():
+        # symbolic count: fork over the values that matter (0..remaining), anything larger takes everything
+        rem=it.back-it.pos
+        k=concretize_small(run,n,rem)
+        n=Int(64,False,rem if k is None else k)
     xs=[]
     for _ in range(n.v):
         x=iter_next(e,run,it)
@@ -1369,7 +1373,10 @@ def m_iter_take(e,run,a,f):
     return Iter(xs)
 def m_iter_skip(e,run,a,f):
     it=to_iter(e,run,a[0]); n=deref(a[1])
-    if not n.conc(): raise Unsupported('skip symbolic')
+    if not n.conc():
+        rem=it.back-it.pos
+        k=concretize_small(run,n,rem)
+        n=Int(64,False,rem if k is None else k)
     for _ in range(n.v):
         if iter_next(e,run,it) is None: break
     return it
